@@ -59,6 +59,13 @@ FIXED = [
     ("relative-heading pruning rebuilt the pruned region at z=0", ["C08"], "C08.subset", "relative-heading pruning of an object placed in a polygon at z != 0 moved it to z = 0 (F40)"),
     ("voxel dilation was clipped to the original grid", ["C08"], "C08.room", "_bufferOverapproximate never grew the view region, so visibility pruning removed feasible positions (F42)"),
     ("voxel buffering divided a length by the relative pitch", ["C08"], "C08.progress", "view regions with extents < 1 were under-buffered (F41)"),
+    ("assignment/del/for targets containing a Scenic expression crashed the parser", ["C10"], "C10.raises", "`x deg = 5`, `(new Object) = 3`, `del a relative to b` raised ValueError instead of a syntax error (F24)"),
+    ("f-string conversion check read lineno/col_offset of tokens", ["C10"], "C10.errargs", "f'{x!z}' raised AttributeError instead of a syntax error (F25)"),
+    ("override statements and beyond specifiers were built without source locations", ["C09"], "C09.lineno", "an `override` statement on line 7 compiled to a call with lineno 1 (F43)"),
+    ("f-string conversions (!r, !s, !a) crashed the parser on Python 3.12", ["C10", "C09"], "C10.errargs", "f'{x!r}' raised AttributeError ('TokenInfo' has no attribute 'decode') (F44)"),
+    ("non-temporal `implies` could not be evaluated at run time", ["C11"], "C11.classes", "`require A implies B` executed in a compose block raised RuntimeError (F07)"),
+    ("DynamicMonitorRequirement.__str__ read an attribute that was never set", ["C11"], "C11.classes", "str() of an unnamed dynamic temporal requirement raised AttributeError `ty` (F46)"),
+    ("temporal requirements declared inside a compose block were never monitored", ["C11"], "C11.monitor", "`require always C` inside a sub-scenario's compose block was silently ignored; at top level it crashed with AttributeError (F47)"),
 ]
 
 
